@@ -18,8 +18,8 @@ ID = "C05"
 CASES = {"quick": 3000, "thorough": 30000}
 FLOOR = {"quick": 2200, "thorough": 22000}
 FLOOR_COUNTERS = {
-    "quick": {"caller_buffers_overwritten_after_fit": 800, "fits_through_fit_transform": 500, "configured_not_by_constructor": 1500, "non_default_containers": 1000, "plumbing_pairs": 1000, "heldout_scores_judged": 900, "pcovr_equivalences": 90, "kpca_limits": 300, "heldout_size_gt_n": 150, "heldout_size_1": 100, "estimators_with_a_past": 300},
-    "thorough": {"caller_buffers_overwritten_after_fit": 9000, "fits_through_fit_transform": 5000, "configured_not_by_constructor": 15000, "non_default_containers": 10000, "plumbing_pairs": 14000, "heldout_scores_judged": 12000, "pcovr_equivalences": 600, "kpca_limits": 4000, "heldout_size_gt_n": 2000, "heldout_size_1": 1500, "estimators_with_a_past": 3500},
+    "quick": {"rejected_calls_in_the_history": 1000, "numpy_scalar_parameters": 500, "caller_buffers_overwritten_after_fit": 800, "fits_through_fit_transform": 500, "configured_not_by_constructor": 1500, "non_default_containers": 1000, "plumbing_pairs": 1000, "heldout_scores_judged": 900, "pcovr_equivalences": 90, "kpca_limits": 300, "heldout_size_gt_n": 150, "heldout_size_1": 100, "estimators_with_a_past": 300},
+    "thorough": {"rejected_calls_in_the_history": 12000, "numpy_scalar_parameters": 6000, "caller_buffers_overwritten_after_fit": 9000, "fits_through_fit_transform": 5000, "configured_not_by_constructor": 15000, "non_default_containers": 10000, "plumbing_pairs": 14000, "heldout_scores_judged": 12000, "pcovr_equivalences": 600, "kpca_limits": 4000, "heldout_size_gt_n": 2000, "heldout_size_1": 1500, "estimators_with_a_past": 3500},
 }
 RULE = (
     "case = X, Y (1-D/2-D), kernel in {linear, rbf, poly, sigmoid(small gamma), cosine} with gamma/degree/coef0, center, "
@@ -80,6 +80,8 @@ def gen(rng, tier, index):
         "xform": gens.pick(rng, forms.PRESENT),
         "carry": gens.pick(rng, forms.CARRY),
         "clobber": bool(rng.random() < 0.5),
+        "reject": bool(rng.random() < 0.5),
+        "npscalars": bool(rng.random() < 0.3),
     }
 
 
@@ -100,6 +102,8 @@ def _make(case, kernel, center, reg, mixing=None, k=None):
 
     kw = dict(case["kp"]) if kernel != "precomputed" else {}
     params = dict(mixing=case["mixing"] if mixing is None else mixing, n_components=case["k"] if k is None else k, kernel=kernel, center=center, regressor=reg, svd_solver="full", **kw)
+    if case.get("npscalars"):
+        params = forms.numpy_scalars(params)  # e.g. center=np.True_, what iterating over a boolean grid hands out
     hows = case.get("how") or ["ctor"]
     case["_made"] = case.get("_made", 0) + 1
     how = hows[case["_made"] % len(hows)]
@@ -180,6 +184,8 @@ def run(case, j):
         j.note("configured_not_by_constructor")
     if case.get("xform", "C") != "C":
         j.note("non_default_containers")
+    if case.get("npscalars"):
+        j.note("numpy_scalar_parameters")
     if case.get("via") == "fit_transform":
         Tft = np.asarray(j.lib("fit_transform:named", est_a.fit_transform, Xin, fit_Y, **fit_kw))
         Ttr = np.asarray(est_a.transform(X))
@@ -260,6 +266,11 @@ def run(case, j):
 
     T_n = np.asarray(est_a.transform(X))
     want_tr = loss(Kc, Kc, Kc, T_n, T_n, fit_Y, est_a.predict(X))
+    if case.get("reject") and kern != "precomputed":
+        # a failure in the history: queries with the wrong number of features are refused; the later legal ones stand
+        Xbad = np.hstack([Xv, Xv[:, :1]])
+        forms.rejected(j, "score of samples with another number of features", est_a.score, Xbad, Yv)
+        forms.rejected(j, "transform of samples with another number of features", est_a.transform, Xbad)
     got_tr = j.lib("score:train", est_a.score, X, fit_Y)
     j.close("score(training set) == -(kernel reconstruction loss + relative regression loss)", got_tr, want_tr, 1e-8 * max(1.0, abs(want_tr)))
     if np.trace(Kvvc) > 1e-10 * max(np.trace(Kc) / n, 1e-300):
